@@ -109,9 +109,9 @@ func runC03(r *Report) {
 			case "Checksum":
 				sum := st.Val
 				// the sum may pass through the shared zero-avoiding helper together with the value it was computed from
-				if hc, ok := sum.(*ssa.Call); ok && CalleeKey(hc) == "sstables.nonZeroChecksum" && len(hc.Call.Args) == 2 {
-					if po := paramOrigin(hc.Call.Args[1]); po != nil && refName(po) == "value" {
-						sum = hc.Call.Args[0]
+				if sm, val, ok := zeroMappedSum(sum); ok {
+					if po := paramOrigin(val); po != nil && refName(po) == "value" {
+						sum = sm
 					}
 				}
 				if c, ok := sum.(*ssa.Call); ok && c.Call.IsInvoke() && c.Call.Method.Name() == "Sum64" {
